@@ -4,7 +4,7 @@ import traceback
 
 from . import base
 
-MODULES = ['flags', 'chain', 'core', 'globc', 'matchc']
+MODULES = ['flags', 'chain', 'core', 'globc', 'matchc', 'walkc']
 
 
 def all_contracts():
